@@ -1,7 +1,7 @@
 (** * Composition: whole lines, directive lines, documents (C07) *)
 From Coq Require Import List Ascii String ZArith Bool Lia.
 From Shexer Require Import Lib.PyStr Lib.Dict Gen.Consts Spec.Rdf Spec.TtlSyntax Spec.TtlDomain Model.TtlReader
-  Proofs.TtlProofs Proofs.TtlExpand Proofs.TtlLiteral Proofs.TtlClean Proofs.TtlTokens Proofs.TtlScan.
+  Proofs.TtlProofs Proofs.TtlExpand Proofs.TtlLiteral Proofs.TtlClean Proofs.TtlTokens Proofs.TtlScan Proofs.TtlObjects.
 Import ListNotations.
 Local Open Scope Z_scope.
 
@@ -463,7 +463,6 @@ Lemma rc_obj_ws e o : rc_free (rc_obj e o) = true ->
 Proof.
   destruct o as [r|l|lex sfx|d]; cbn [lex_of]; try (intros; exact I).
   cbn [rc_obj]. unfold rc_lit. intros H.
-  destruct (contains (Str """^^") (Str """" ++ lex)); [cbn in H; discriminate|]. cbn [when app] in H.
   destruct (contains [ascii_of_nat 9] lex || contains (Str "  ") lex); [cbn in H; discriminate | reflexivity].
 Qed.
 
